@@ -15,7 +15,7 @@ class_aliases = {
     "UnitSum": "hugr.tys.UnitSum", "FunctionType": "hugr.tys.FunctionType", "PolyFuncType": "hugr.tys.PolyFuncType",
     "TypeTypeArg": "hugr.tys.TypeTypeArg", "SequenceArg": "hugr.tys.SequenceArg",
     "Registry": "hugr.ext.ExtensionRegistry", "Extension": "hugr.ext.Extension", "TypeDef": "hugr.ext.TypeDef", "OpDef": "hugr.ext.OpDef",
-    "Custom": "hugr.ops.Custom", "ExtOp": "hugr.ops.ExtOp",
+    "Custom": "hugr.ops.Custom", "ExtOp": "hugr.ops.ExtOp", "Op": "hugr.ops.Op",
 }
 
 
@@ -260,4 +260,6 @@ class custom_resolve:
             "P_signature_resolved": implies(found, notNone(r.signature) and row_res(the(r.signature).input, self.signature.input, registry)
                                             and row_res(the(r.signature).output, self.signature.output, registry) and eq(the(r.signature).runtime_reqs, self.signature.runtime_reqs)),
             "P_arguments_resolved": implies(found, args_res(r.args, self.args, registry)),
+            # ghost definition used at the HUGR level (contracts/resolve_hugr.py): the result is named res_op(self, registry)
+            "A_names_result": same_obj(result, ghost("res_op", "Op", self, registry)),
         }
